@@ -13,24 +13,27 @@ import threading
 
 
 class Plan:
-    """shared failpoint state (one per worker process)"""
+    """shared failpoint state (one per worker process).  Failpoints are numbered globally
+    from the moment of arming, across all transactions and connections: ordinal k = the
+    k-th storage mutation (statement / put / delete / commit) after arm()."""
 
     def __init__(self):
         self.lock = threading.Lock()
         self.reset()
 
     def reset(self):
-        self.armed = None  # {"ordinal": k, "action": "error"|"kill", "txn": which write txn after arming (0 = first)}
-        self.ordinal = 0  # ordinal inside the current write transaction / add_event
-        self.txn_no = -1  # write transactions begun since arming
+        self.armed = None  # {"ordinal": k, "action": "error"|"kill"}
+        self.seq = 0  # mutations seen since arming
+        self.txn_no = -1  # write transactions begun since arming (for the trace only)
         self.fired = 0
-        self.trace = []  # (txn_no, ordinal, op) of the armed region
+        self.trace = []  # (txn_no, ordinal, op)
         self.recording = False
         self.write_txns_finished = 0
 
-    def arm(self, ordinal, action, txn=0):
+    def arm(self, ordinal, action, txn=None):
         with self.lock:
-            self.armed = {"ordinal": ordinal, "action": action, "txn": txn}
+            self.armed = {"ordinal": ordinal, "action": action}
+            self.seq = 0
             self.txn_no = -1
             self.fired = 0
             self.trace = []
@@ -39,6 +42,7 @@ class Plan:
     def record_only(self):
         with self.lock:
             self.armed = None
+            self.seq = 0
             self.txn_no = -1
             self.trace = []
             self.recording = True
@@ -51,17 +55,16 @@ class Plan:
     def begin_txn(self):
         with self.lock:
             self.txn_no += 1
-            self.ordinal = 0
 
     def point(self, op, make_error):
         """called before each mutation; may raise or kill"""
         with self.lock:
-            k = self.ordinal
-            self.ordinal += 1
+            k = self.seq
+            self.seq += 1
             if self.recording:
                 self.trace.append((self.txn_no, k, op))
             a = self.armed
-            fire = a is not None and a["txn"] == self.txn_no and a["ordinal"] == k and not self.fired
+            fire = a is not None and a["ordinal"] == k and not self.fired
             if fire:
                 self.fired += 1
         if fire:
@@ -187,7 +190,8 @@ def install_sql(storage):
     eng = storage.db.sync_engine
 
     def make_error():
-        return sqlalchemy.exc.OperationalError("injected", {}, Exception("injected failure"))
+        # a multi-line message with quotes, like real driver errors
+        return sqlalchemy.exc.OperationalError("injected", {}, Exception('injected failure\n(second line, "quoted")'))
 
     def begin(conn):
         PLAN.begin_txn()
